@@ -50,6 +50,19 @@ impl<D: DictionaryAccess + Clone> StatefulTokenizer<D> {
     }
 }
 
+#[cfg(feature = "verif")]
+impl<D> StatefulTokenizer<D> {
+    /// Read-only access to the lattice of the last analysis (verification harness hook)
+    pub fn verif_lattice(&self) -> &Lattice {
+        &self.lattice
+    }
+
+    /// Read-only access to the input buffer of the last analysis (verification harness hook)
+    pub fn verif_input(&self) -> &InputBuffer {
+        &self.input
+    }
+}
+
 impl<D: DictionaryAccess> StatefulTokenizer<D> {
     /// Create a new non-debug stateful tokenizer
     pub fn new(dic: D, mode: Mode) -> Self {
